@@ -575,6 +575,7 @@ impl FormatSpec {
             }
             Some(FormatType::String) => Err(FormatSpecError::UnknownFormatCode('s', "int")),
             Some(FormatType::Character) => match (self.sign, self.alternate_form) {
+                _ if self.precision.is_some() => Err(FormatSpecError::PrecisionNotAllowed),
                 (Some(_), _) => Err(FormatSpecError::NotAllowed("Sign")),
                 (_, true) => Err(FormatSpecError::NotAllowed("Alternate form (#)")),
                 (_, _) => match num.to_u32() {
